@@ -210,6 +210,17 @@ func GoInline(on bool)      {}
 func Symbolic() bool        { return false }
 func PanicPos() string      { return "" }
 
+// TextDependsOn: the text was built from the hostile byte c (engine: the
+// text is not a constant; native: the byte value occurs in it).
+func TextDependsOn(s string, c byte) bool {
+	for i := 0; i < len(s); i++ {
+		if s[i] == c {
+			return true
+		}
+	}
+	return false
+}
+
 func BytesEq(a, b []byte) bool { return string(a) == string(b) }
 
 // IsSubslice reports whether sub lies inside base[0:len(base)] of the same
